@@ -426,7 +426,27 @@ pub fn run(thorough: bool) -> Report {
     let alpha = alphabet();
     let depth = if thorough { 6 } else { 4 };
     let mk = || Sess::new();
-    let (stats, viol) = bfs(&mk, &seeded_roots(), &alpha, depth, &check_transition, None, 30_000_000);
+    // "still accepts lines": in every distinct idle state a plain statement runs
+    let accepts = |hist: &[Ev], snap: &abasic_core::verif::VerifState| -> Vec<Violation> {
+        if snap.state != "Idle" {
+            return vec![];
+        }
+        let mk = || Sess::new();
+        let mut s = replay(&mk, hist);
+        s.recs.clear();
+        let r = s.apply(&Ev::Line("PRINT 7".into()));
+        if r != CallResult::Ok || s.printed() != "7\n" || s.state() != InterpreterState::Idle {
+            let mut h = hist.to_vec();
+            h.push(Ev::Line("PRINT 7".into()));
+            return vec![Violation {
+                signature: format!("idle interpreter does not run PRINT 7: {:?}", r).chars().take(90).collect(),
+                detail: format!("after the history the interpreter is idle, but PRINT 7 gave {:?}, printed {:?}, state {:?}", r, s.printed(), s.state()),
+                case: case_history(&h, false, false),
+            }];
+        }
+        vec![]
+    };
+    let (stats, viol) = bfs(&mk, &seeded_roots(), &alpha, depth, &check_transition, Some(&accepts), 30_000_000);
     // Vacuity: every event of the alphabet must have been enabled at least once.
     if stats.events_enabled.len() < alpha.len() {
         machinery(&format!(
